@@ -127,6 +127,10 @@ impl Prop for C07 {
             rng_goal: 0.5,
             max_obst: 3,
             budget_scale: 0.4,
+            // error paths matter here: a call that returns early (invalid start, no valid goal
+            // root) must leave the generator in the same state in both instances
+            p_goal_blocked: 0.15,
+            p_marginal_start: 0.1,
             ..Default::default()
         };
         gen_plan_case(ch, &prof)
